@@ -73,7 +73,7 @@ CLAIMED.update({
             "iteration invariant (inductive over every reader step for every legal choice of the event a load returns, stable under log growth), acceptance argument, "
             "lifted to whole-system runs by induction over the schedule; the configuration measured from the running code must satisfy the theorem's side condition "
             "safe_cfg (generated Current_C02.v, re-proved and instantiated every run); SC schedule correspondence of the real write()/snapshot(); RA search for a failing history",
-            "Machine-checked: C02_RA (for every configuration with safe_cfg, every number of cells, every schedule of writer accesses, reader accesses with any release/acquire-legal "
+            "Machine-checked: C02_RA (for every record function - what the daemon publishes is a parameter, class RecFun -, every configuration with safe_cfg, every number of cells, every schedule of writer accesses, reader accesses with any release/acquire-legal "
             "read choice, crashes at any access, restarts and new readers, with fewer than 32767 write() calls: every record a snapshot() returns is the initial zero record or cell "
             "for cell the record of one completed write() call), C02_reachable_invariant, C02_accept_is_one_completed_write, the three refutations for unsafe configurations, "
             "C02_fenced_rejects_torn_read. Runs of any length: C02_RA_window replaces the bound on the number of write() calls by the window condition 'no snapshot() iteration spans 32767 or "
